@@ -2,6 +2,7 @@ package compact
 
 import (
 	"context"
+	"encoding/binary"
 	"errors"
 	"fmt"
 	"io"
@@ -343,6 +344,13 @@ func combinePoints(points *encoding.Uint64Map, nss *Namespaces, goroutines int, 
 			default:
 				panic(fmt.Sprintf("Unexpected tag: %d", t.Tag))
 			}
+		}
+		// The combined entry re-encodes the references (as two lists, delta
+		// coded), which can take more space than the bucket they were read
+		// from, so the largest bucket only bounds the output for big maps.
+		const maxReferenceLength = binary.MaxVarintLen32 + binary.MaxVarintLen64
+		if needed := len(point) + (len(references[g].Paths)+len(references[g].Relations))*maxReferenceLength + 2*binary.MaxVarintLen64; len(buffers[g]) < needed {
+			buffers[g] = make([]byte, needed)
 		}
 		if point != nil {
 			if len(references[g].Paths) == 1 && len(references[g].Relations) == 0 {
